@@ -8,6 +8,7 @@
 -/
 import Genshi.Lemmas.SanReparse
 import Genshi.Lemmas.ReaderPrologSim
+import Genshi.Lemmas.SanReaderDoctype
 import Genshi.Lemmas.OutputTree
 set_option linter.unusedSimpArgs false
 namespace Genshi.San
@@ -16,8 +17,8 @@ open Genshi Genshi.San.Spec
 /-! ### input forests and pruned forests -/
 
 mutual
-  /-- input leaves: plain text, comments, CDATA markers, processing instructions and DOCTYPE
-      declarations (any; for the DOCTYPEs that are kept see `DtOkForest`) -/
+  /-- input leaves: plain text, comments, CDATA markers, processing instructions, DOCTYPE
+      declarations and XML declarations (any) -/
   def prologTree : Node → Bool
     | .elem _ _ ks => prologForest ks
     | .leaf (.text _ f) => !f
@@ -26,33 +27,41 @@ mutual
     | .leaf .endCdata => true
     | .leaf (.pi _ _) => true
     | .leaf (.doctype _ _ _) => true
+    | .leaf (.xmlDecl _ _ _) => true
     | .leaf _ => false
   def prologForest : List Node → Bool
     | [] => true
     | n :: ns => prologTree n && prologForest ns
 end
 
-/-- C08's hypothesis on a DOCTYPE event for the html round trip (`Reader.HtmlOkP`, whatever came
-    before: the literal `name PUBLIC "…" "…"` is read back whole by the html-mode reader), stated
-    through C08's own predicate so that this file does not depend on how C08 spells it -/
-def DtReadable (n : Str) (p s : Option Str) : Prop := ∀ hd, Reader.HtmlOkP false hd (.doctype n p s)
-
-mutual
-  /-- every DOCTYPE leaf that the filter keeps (no `>` in it) satisfies C08's hypothesis -/
-  def DtOkTree : Node → Prop
-    | .elem _ _ ks => DtOkForest ks
-    | .leaf (.doctype n p s) => dtHasGt n p s = false → DtReadable n p s
-    | .leaf _ => True
-  def DtOkForest : List Node → Prop
-    | [] => True
-    | n :: ns => DtOkTree n ∧ DtOkForest ns
-end
+/-- what the filter establishes for a DOCTYPE event it keeps (`dtHasGt … = false`) is what the
+    html-mode reader needs (`Reader.HtmlOkG`: no `>` in the literal the serializer writes; wave 4 —
+    before, C08's stricter `dtScan false` was asked of the kept DOCTYPE leaves: `DtOkForest`) -/
+theorem dtLiteral_no_gt {n : Str} {p s : Option Str} (h : dtHasGt n p s = false) :
+    '>' ∉ Reader.doctypeContent n p s := by
+  unfold dtHasGt at h
+  simp only [Bool.or_eq_false_iff] at h
+  obtain ⟨⟨hn, hp⟩, hs⟩ := h
+  have opt : ∀ o : Option Str, optHasGt o = false → '>' ∉ o.getD [] := by
+    intro o ho
+    cases o with
+    | none => simp
+    | some x =>
+      intro hm
+      have : List.contains x '>' = true := by simpa using hm
+      simp only [optHasGt] at ho
+      rw [ho] at this; cases this
+  refine Reader.doctypeContent_no_gt n p s ?_ (opt p hp) (opt s hs)
+  intro hm
+  have : List.contains n '>' = true := by simpa using hm
+  rw [hn] at this; cases this
 
 /-- what a surviving leaf is -/
 def LeafGoodP (e : Event) : Prop :=
   (∃ s, e = .text s false) ∨
   (∃ t d, e = .pi t d ∧ (List.contains t '>' || List.contains d '>') = false) ∨
-  (∃ n p s, e = .doctype n p s ∧ DtReadable n p s)
+  (∃ n p s, e = .doctype n p s ∧ dtHasGt n p s = false) ∨
+  (∃ v en sa, e = .xmlDecl v en sa)
 
 mutual
   def TreeGoodP (cfg : Cfg) : Node → Prop
@@ -75,9 +84,9 @@ theorem forestGoodP_append {cfg : Cfg} : ∀ (a b : List Node), ForestGoodP cfg 
     exact ⟨ha.1, ih b ha.2 hb⟩
 
 mutual
-  theorem prune_goodP (cfg : Cfg) : ∀ (n : Node) (p : List Node), prologTree n = true → DtOkTree n →
+  theorem prune_goodP (cfg : Cfg) : ∀ (n : Node) (p : List Node), prologTree n = true →
       prune cfg n = .ok p → ForestGoodP cfg p
-    | .elem t a ks, p, hpl, hdt, h => by
+    | .elem t a ks, p, hpl, h => by
       unfold prune at h
       by_cases hs : isSafeElem cfg t a = true
       · obtain ⟨as, has⟩ := sanAttrs_ok cfg a
@@ -87,8 +96,7 @@ mutual
           simp [hs, has, hk] at h
           subst h
           simp only [ForestGoodP, TreeGoodP, and_true]
-          refine ⟨?_, ?_, pruneList_goodP cfg ks ks' (by simpa [prologTree] using hpl)
-            (by simpa [DtOkTree] using hdt) hk⟩
+          refine ⟨?_, ?_, pruneList_goodP cfg ks ks' (by simpa [prologTree] using hpl) hk⟩
           · unfold isSafeElem at hs
             simp only [Bool.and_eq_true] at hs
             simpa using hs.1
@@ -96,7 +104,7 @@ mutual
             obtain ⟨a0, _, hsa⟩ := sanAttrs_mem has b hb
             exact attrGood_of_sanAttr hsa
       · simp [hs] at h; subst h; trivial
-    | .leaf e, p, hpl, hdt, h => by
+    | .leaf e, p, hpl, h => by
       cases e with
       | text s f =>
         simp [prune] at h; subst h
@@ -122,21 +130,20 @@ mutual
         · simp only [prune, hgt, Bool.false_eq_true, ↓reduceIte] at h
           simp at h; subst h
           simp only [ForestGoodP, TreeGoodP, and_true]
-          have : DtReadable n q s := by
-            simp only [DtOkTree] at hdt
-            exact hdt (by simpa using hgt)
-          exact Or.inr (Or.inr ⟨n, q, s, rfl, this⟩)
-      | xmlDecl _ _ _ => simp [prologTree] at hpl
+          exact Or.inr (Or.inr (Or.inl ⟨n, q, s, rfl, by simpa using hgt⟩))
+      | xmlDecl v en sa =>
+        simp [prune] at h; subst h
+        simp only [ForestGoodP, TreeGoodP, and_true]
+        exact Or.inr (Or.inr (Or.inr ⟨v, en, sa, rfl⟩))
       | startNs _ _ => simp [prologTree] at hpl
       | endNs _ => simp [prologTree] at hpl
       | startCdata => simp [prune] at h; subst h; trivial
       | endCdata => simp [prune] at h; subst h; trivial
-  theorem pruneList_goodP (cfg : Cfg) : ∀ (ns p : List Node), prologForest ns = true → DtOkForest ns →
+  theorem pruneList_goodP (cfg : Cfg) : ∀ (ns p : List Node), prologForest ns = true →
       pruneList cfg ns = .ok p → ForestGoodP cfg p
-    | [], p, _, _, h => by simp [pruneList] at h; subst h; trivial
-    | n :: ns, p, hpl, hdt, h => by
+    | [], p, _, h => by simp [pruneList] at h; subst h; trivial
+    | n :: ns, p, hpl, h => by
       simp only [prologForest, Bool.and_eq_true] at hpl
-      simp only [DtOkForest] at hdt
       unfold pruneList at h
       cases ha : prune cfg n with
       | error e => simp [ha] at h
@@ -146,7 +153,7 @@ mutual
         | ok b =>
           simp [ha, hb] at h
           subst h
-          exact forestGoodP_append a b (prune_goodP cfg n a hpl.1 hdt.1 ha) (pruneList_goodP cfg ns b hpl.2 hdt.2 hb)
+          exact forestGoodP_append a b (prune_goodP cfg n a hpl.1 ha) (pruneList_goodP cfg ns b hpl.2 hb)
 end
 
 /-! ### the events that reach the HTML serializer's main loop -/
@@ -158,7 +165,8 @@ def FEvGood (cfg : Cfg) : Output.FEv → Prop
   | .end_ t => t ∈ cfg.safeTags
   | .text _ f => f = false
   | .pi t d => (List.contains t '>' || List.contains d '>') = false
-  | .doctype n p s => DtReadable n p s
+  | .doctype n p s => dtHasGt n p s = false
+  | .xmlDecl _ _ _ => True
   | _ => False
 
 mutual
@@ -184,13 +192,15 @@ mutual
         · exact h3 ev hev
         · exact hloc
     | .leaf e, h => by
-      rcases h with ⟨s, rfl⟩ | ⟨t, d, rfl, hgt⟩ | ⟨n, p, s, rfl, hdt⟩
+      rcases h with ⟨s, rfl⟩ | ⟨t, d, rfl, hgt⟩ | ⟨n, p, s, rfl, hdt⟩ | ⟨v, en, sa, rfl⟩
       · refine ⟨by simp [Node.ok, Event.isStartEnd, Output.nsFree, Output.leafF], ?_⟩
         intro ev hev; simp [Output.treeF, Output.leafF] at hev; subst hev; rfl
       · refine ⟨by simp [Node.ok, Event.isStartEnd, Output.nsFree, Output.leafF], ?_⟩
         intro ev hev; simp [Output.treeF, Output.leafF] at hev; subst hev; exact hgt
       · refine ⟨by simp [Node.ok, Event.isStartEnd, Output.nsFree, Output.leafF], ?_⟩
         intro ev hev; simp [Output.treeF, Output.leafF] at hev; subst hev; exact hdt
+      · refine ⟨by simp [Node.ok, Event.isStartEnd, Output.nsFree, Output.leafF], ?_⟩
+        intro ev hev; simp [Output.treeF, Output.leafF] at hev; subst hev; trivial
   theorem forestF_good {cfg : Cfg} (hm : CfgMarkupOk cfg) : ∀ (ns : List Node), ForestGoodP cfg ns →
       (okList ns = true ∧ Output.forestNsFree ns = true) ∧ ∀ ev ∈ Output.forestF ns, FEvGood cfg ev
     | [], _ => by simp [okList, Output.forestNsFree, Output.forestF]
@@ -220,7 +230,7 @@ theorem piSafe_no_gt : ∀ (s : Str) (q : Bool), '>' ∉ s → Reader.piSafe fal
     exact ⟨by simp [hc], ih _ hcs⟩
 
 theorem fevGood_ok {cfg : Cfg} (hm : CfgMarkupOk cfg) {ev : Output.FEv} (h : FEvGood cfg ev) (hd : Bool) :
-    Reader.HtmlOkP false hd ev ∧ Reader.rawAfter false ev = false := by
+    Reader.HtmlOkG false hd ev ∧ Reader.rawAfter false ev = false := by
   cases ev with
   | start t a =>
     obtain ⟨ht, al, rfl, ha⟩ := h
@@ -256,16 +266,16 @@ theorem fevGood_ok {cfg : Cfg} (hm : CfgMarkupOk cfg) {ev : Output.FEv} (h : FEv
     · cases h1
     · have : List.contains d '>' = true := by simpa using h1
       rw [h'.2] at this; cases this
-  | doctype n p s => exact ⟨h hd, rfl⟩
+  | doctype n p s => exact ⟨⟨rfl, fun _ => dtLiteral_no_gt h⟩, rfl⟩
   | comment _ => exact absurd h (by simp [FEvGood])
-  | xmlDecl _ _ _ => exact absurd h (by simp [FEvGood])
+  | xmlDecl _ _ _ => exact ⟨trivial, rfl⟩
   | startNs _ _ => exact absurd h (by simp [FEvGood])
   | endNs _ => exact absurd h (by simp [FEvGood])
   | startCdata => exact absurd h (by simp [FEvGood])
   | endCdata => exact absurd h (by simp [FEvGood])
 
 theorem okAllP_of_good {cfg : Cfg} (hm : CfgMarkupOk cfg) : ∀ (evs : List Output.FEv),
-    (∀ ev ∈ evs, FEvGood cfg ev) → ∀ hd, Reader.HtmlOkAllP false hd evs ∧ Reader.rawEndP false evs = false := by
+    (∀ ev ∈ evs, FEvGood cfg ev) → ∀ hd, Reader.HtmlOkAllG false hd evs ∧ Reader.rawEndP false evs = false := by
   intro evs
   induction evs with
   | nil => intro _ hd; exact ⟨trivial, rfl⟩
@@ -274,7 +284,7 @@ theorem okAllP_of_good {cfg : Cfg} (hm : CfgMarkupOk cfg) : ∀ (evs : List Outp
     obtain ⟨h1, h2⟩ := fevGood_ok hm (h ev (by simp)) hd
     have ihr := ih (fun e he => h e (by simp [he])) (hd || Reader.HtmlOkAllP.isDoctypeEv ev)
     refine ⟨?_, ?_⟩
-    · simp only [Reader.HtmlOkAllP]
+    · simp only [Reader.HtmlOkAllG]
       rw [h2]
       exact ⟨h1, ihr.1⟩
     · simp only [Reader.rawEndP, List.foldl_cons]
@@ -353,7 +363,10 @@ theorem htmlEvP_safe (hd : Genshi.Gen.SanClass.commentsDotall = true) {cfg : Cfg
       · trivial
       · exact hfl x hx
   | comment _ => exact absurd hg (by simp [FEvGood])
-  | xmlDecl _ _ _ => exact absurd hg (by simp [FEvGood])
+  | xmlDecl _ _ _ =>
+    intro x hx
+    simp only [Reader.htmlEvP, Reader.htmlEv] at hx
+    exact hr x hx
   | startNs _ _ => exact absurd hg (by simp [FEvGood])
   | endNs _ => exact absurd hg (by simp [FEvGood])
   | startCdata => exact absurd hg (by simp [FEvGood])
